@@ -32,7 +32,7 @@ def class_id(e):
     for k in (1, 0, 2, 8, 6, 7, 3, 4, 5):
         if type(e) is CLASSES[k]:
             return k
-    raise TypeError('unexpected exception %r' % (e,))
+    return 12      # an exception no scripted attempt can produce (AttributeError, exhausted transport script, ...)
 
 
 def backoff_obj(b, jitter_vals):
